@@ -2,7 +2,7 @@
 (* GENERATED from `fuzzdrv fuzztables` by tools/props/C15_tables.py -- do not edit by hand.        *)
 (* Input carriers of the node (one per production channel), the protobuf message types reachable  *)
 (* inside a valid carrier, and the fields of every message type (from the generated descriptors). *)
-Carriers == {"gossip-block", "gossip-header", "gossip-share", "gossip-share-scrypt", "gossip-share-btc", "gossip-auxtemplate", "p2p-request", "p2p-response-block", "p2p-response-blocks", "p2p-response-header", "p2p-response-hash", "rpc-rawtx-quai", "rpc-rawtx-qi", "rpc-rawtx-ext", "rpc-minedheader", "rpc-rawworkshare", "rpc-subworkshare", "db-woheader", "db-wobody", "db-receipts", "db-pendingetxs", "db-pendingetxsrollup", "db-termini", "db-utxo", "db-inboundetxs", "db-manifest", "proto-header", "proto-auxpow"}
+Carriers == {"gossip-block", "gossip-header", "gossip-share", "gossip-share-scrypt", "gossip-share-btc", "gossip-block-consistent", "gossip-header-consistent", "gossip-share-consistent", "gossip-auxtemplate", "p2p-request", "p2p-response-block", "p2p-response-blocks", "p2p-response-header", "p2p-response-hash", "rpc-rawtx-quai", "rpc-rawtx-qi", "rpc-rawtx-ext", "rpc-minedheader", "rpc-rawworkshare", "rpc-subworkshare", "db-woheader", "db-wobody", "db-receipts", "db-pendingetxs", "db-pendingetxsrollup", "db-termini", "db-utxo", "db-inboundetxs", "db-manifest", "proto-header", "proto-auxpow"}
 
 MsgsOf(k) ==
     CASE k = "gossip-block" -> {"block.ProtoAccessList", "block.ProtoAccessTuple", "block.ProtoAuxPow", "block.ProtoHeader", "block.ProtoManifest", "block.ProtoPowShareDiffAndCount", "block.ProtoTransaction", "block.ProtoTransactions", "block.ProtoWorkObject", "block.ProtoWorkObjectBlockView", "block.ProtoWorkObjectBody", "block.ProtoWorkObjectHeader", "block.ProtoWorkObjectHeaders", "common.ProtoAddress", "common.ProtoHash", "common.ProtoHashes", "common.ProtoLocation"}
@@ -10,6 +10,9 @@ MsgsOf(k) ==
       [] k = "gossip-share" -> {"block.ProtoAccessList", "block.ProtoAccessTuple", "block.ProtoAuxPow", "block.ProtoHeader", "block.ProtoPowShareDiffAndCount", "block.ProtoTransaction", "block.ProtoTransactions", "block.ProtoWorkObject", "block.ProtoWorkObjectBody", "block.ProtoWorkObjectHeader", "block.ProtoWorkObjectShareView", "common.ProtoAddress", "common.ProtoHash", "common.ProtoLocation"}
       [] k = "gossip-share-scrypt" -> {"block.ProtoAccessList", "block.ProtoAccessTuple", "block.ProtoAuxPow", "block.ProtoHeader", "block.ProtoPowShareDiffAndCount", "block.ProtoTransaction", "block.ProtoTransactions", "block.ProtoWorkObject", "block.ProtoWorkObjectBody", "block.ProtoWorkObjectHeader", "block.ProtoWorkObjectShareView", "common.ProtoAddress", "common.ProtoHash", "common.ProtoLocation"}
       [] k = "gossip-share-btc" -> {"block.ProtoAccessList", "block.ProtoAccessTuple", "block.ProtoAuxPow", "block.ProtoHeader", "block.ProtoPowShareDiffAndCount", "block.ProtoTransaction", "block.ProtoTransactions", "block.ProtoWorkObject", "block.ProtoWorkObjectBody", "block.ProtoWorkObjectHeader", "block.ProtoWorkObjectShareView", "common.ProtoAddress", "common.ProtoHash", "common.ProtoLocation"}
+      [] k = "gossip-block-consistent" -> {"block.ProtoAccessList", "block.ProtoAccessTuple", "block.ProtoAuxPow", "block.ProtoHeader", "block.ProtoManifest", "block.ProtoPowShareDiffAndCount", "block.ProtoTransaction", "block.ProtoTransactions", "block.ProtoWorkObject", "block.ProtoWorkObjectBlockView", "block.ProtoWorkObjectBody", "block.ProtoWorkObjectHeader", "block.ProtoWorkObjectHeaders", "common.ProtoAddress", "common.ProtoHash", "common.ProtoHashes", "common.ProtoLocation"}
+      [] k = "gossip-header-consistent" -> {"block.ProtoAccessList", "block.ProtoAccessTuple", "block.ProtoAuxPow", "block.ProtoHeader", "block.ProtoManifest", "block.ProtoPowShareDiffAndCount", "block.ProtoTransaction", "block.ProtoTransactions", "block.ProtoWorkObject", "block.ProtoWorkObjectBody", "block.ProtoWorkObjectHeader", "block.ProtoWorkObjectHeaderView", "block.ProtoWorkObjectHeaders", "common.ProtoAddress", "common.ProtoHash", "common.ProtoHashes", "common.ProtoLocation"}
+      [] k = "gossip-share-consistent" -> {"block.ProtoAccessList", "block.ProtoAccessTuple", "block.ProtoAuxPow", "block.ProtoHeader", "block.ProtoPowShareDiffAndCount", "block.ProtoTransaction", "block.ProtoTransactions", "block.ProtoWorkObject", "block.ProtoWorkObjectBody", "block.ProtoWorkObjectHeader", "block.ProtoWorkObjectShareView", "common.ProtoAddress", "common.ProtoHash", "common.ProtoLocation"}
       [] k = "gossip-auxtemplate" -> {"block.ProtoAuxTemplate"}
       [] k = "p2p-request" -> {"block.ProtoWorkObjectBlockView", "common.ProtoHash", "common.ProtoLocation", "quaiprotocol.QuaiMessage", "quaiprotocol.QuaiRequestMessage"}
       [] k = "p2p-response-block" -> {"block.ProtoAccessList", "block.ProtoAccessTuple", "block.ProtoAuxPow", "block.ProtoHeader", "block.ProtoManifest", "block.ProtoPowShareDiffAndCount", "block.ProtoTransaction", "block.ProtoTransactions", "block.ProtoWorkObject", "block.ProtoWorkObjectBlockView", "block.ProtoWorkObjectBody", "block.ProtoWorkObjectHeader", "block.ProtoWorkObjectHeaders", "common.ProtoAddress", "common.ProtoHash", "common.ProtoHashes", "common.ProtoLocation", "quaiprotocol.QuaiMessage", "quaiprotocol.QuaiResponseMessage"}
